@@ -43,7 +43,7 @@ func c09Round(c *mon.Ctx, r *mon.Rand) {
 	}
 	shards := uint(r.Range(1, 64))
 	if r.Bool() {
-		shards = uint(r.Range(1, 2))
+		shards = uint(r.Range(0, 2)) // 0 = the public constructor (GOMAXPROCS shards)
 	}
 	N := r.Range(2, 16)
 	nNames := r.Range(1, 3)
@@ -56,7 +56,7 @@ func c09Round(c *mon.Ctx, r *mon.Rand) {
 	inj := mon.NewDelayInjector(r.U64(), prof, true)
 	inj.Install()
 	defer inj.Uninstall()
-	root, _ := tally.VerifNewRootScope(opts, 0, shards)
+	root, _ := vNewRoot(opts, 0, shards)
 	existing := root.Counter("existing")
 	desc := map[string]interface{}{"cached": cached, "shards": shards, "goroutines": N, "names": nNames, "children": nKids}
 	c.LogCase(fmt.Sprint(desc))
@@ -307,8 +307,8 @@ func c09Mix(c *mon.Ctx, r *mon.Rand) {
 	inj := mon.NewDelayInjector(r.U64(), prof, false)
 	inj.Install()
 	defer inj.Uninstall()
-	root, closer := tally.VerifNewRootScope(opts, interval, uint(r.Range(1, 8)))
-	test := tally.VerifNewTestScope("t", map[string]string{"a": "b"}, uint(r.Range(1, 4)))
+	root, closer := vNewRoot(opts, interval, uint(r.Range(0, 8)))
+	test := vNewTest("t", map[string]string{"a": "b"}, uint(r.Range(0, 4)))
 	desc := map[string]interface{}{"cached": cached, "interval_us": interval.Microseconds()}
 	c.LogCase(fmt.Sprint(desc))
 	stopWatch := c.Watchdog(300*time.Second, "no-progress(deadlock?)", desc)
